@@ -183,6 +183,55 @@ class AbsInt:
             ctx.memo[name] = v
         return v
 
+    # ---------------------------------------------------------------- private helper methods called on self (template-method refactorings)
+    self_cls = None  # when set: the concrete class whose instance `self` is (most specific override wins)
+    PROTOCOL_METHODS = {"_matmat", "_rmatmat", "_matvec", "_rmatvec"}
+
+    def follow_self_method(self, name):
+        return name.startswith("_") and not name.startswith("__") and name not in self.PROTOCOL_METHODS
+
+    @staticmethod
+    def _is_abstract(m):
+        body = [st for st in m.node.body if not (isinstance(st, ast.Expr) and isinstance(st.value, ast.Constant))]
+        return len(body) == 1 and isinstance(body[0], ast.Raise)
+
+    def _self_impls(self, fi, name):
+        top = fi
+        while top.parent is not None:
+            top = top.parent
+        cls = top.cls or getattr(top, "enc_cls", None)
+        if cls is None:
+            return []
+        idx = self.idx
+        if self.self_cls is not None:
+            m = idx.find_method(self.self_cls, name)
+            return [m] if m is not None and not self._is_abstract(m) else []
+        out = []
+        m = idx.find_method(cls, name)
+        if m is not None and not self._is_abstract(m):
+            out.append(m)
+        for c in idx.classes.values():
+            if c is not cls and cls in idx.mro(c) and name in c.methods and not self._is_abstract(c.methods[name]) and c.methods[name] not in out:
+                out.append(c.methods[name])
+        return out
+
+    MUTATORS = ("append", "extend", "insert", "add", "update", "setdefault", "pop", "remove", "clear", "sort", "reverse")
+
+    def _container(self, name, value, f):
+        """a local that is also the receiver of a mutating container method (`xs.append(..)`) does not have the value of its
+        bindings; domains that model the mutation themselves override container_mutated"""
+        cache = self.__dict__.setdefault("_mutated_cache", {})
+        key = id(f.node)
+        if key not in cache:
+            cache[key] = {c.func.value.id for c in df.calls(f.node, into_nested=True)
+                          if isinstance(c.func, ast.Attribute) and c.func.attr in self.MUTATORS and isinstance(c.func.value, ast.Name)}
+        if name in cache[key]:
+            return self.container_mutated(name, value)
+        return value
+
+    def container_mutated(self, name, value):
+        return self.unknown(f"container {name} filled by method calls")
+
     def _outer_memo(self, f):
         """memo of an enclosing function's activation as seen from a nested function (keyed by the identity of its frame)"""
         frames = getattr(self, "frames", None)
@@ -261,7 +310,7 @@ class AbsInt:
                                         val = self.index(val, "*" if p == "iter" else p) if p != "with" else val
                                 top_level = getattr(st, "_parent", None) is f.node
                                 cur = val if top_level else self.join([cur, val])
-                            return cur
+                            return self._container(name, cur, f)
                     for v, path, st in asg:
                         if isinstance(v, ast.AugAssign):
                             if self.AUG_KEEPS_VALUE:
@@ -280,7 +329,7 @@ class AbsInt:
                         vals.append(val)
                     if has_base:
                         vals.append(base_of())
-                    return self.join(vals)
+                    return self._container(name, self.join(vals), f)
                 finally:
                     ctx.busy.discard(key)
             if name in params:
@@ -333,6 +382,10 @@ class AbsInt:
                 if self.follow_callee(callee):
                     return self.eval_function(callee, c, args, kwargs, ctx)
                 return self.call_unknown(c, ctx)
+        if isinstance(f, ast.Attribute) and isinstance(f.value, ast.Name) and f.value.id == "self" and "self" not in ctx.env and self.follow_self_method(f.attr):
+            impls = self._self_impls(ctx.fi, f.attr)
+            if impls:
+                return self.join([self.eval_function(m, c, args, kwargs, ctx, skip_first=True) for m in impls])
         if isinstance(f, ast.Attribute):
             recv = self.ev(f.value, ctx)
             return self.call_method(recv, f.attr, c, args, kwargs, ctx)
